@@ -481,6 +481,9 @@ impl ASN1Type {
             })) => {
                 let mut impl_template = ty.clone();
                 let mut impl_tlds = tlds.clone();
+                // A template that instantiates itself (directly or through other templates) would be
+                // expanded without end: while it is being instantiated it cannot be referenced.
+                impl_tlds.remove(identifier);
                 let mut table_constraint_replacements = BTreeMap::new();
                 for (
                     index,
